@@ -422,8 +422,8 @@ class Ctx:
         print("%s %s: states=%d transitions=%d traces=%d evals=%d nontrivial=%d violations=%d wall=%.1fs" %
               (self.pid, self.tier, self.states, self.transitions, self.traces, cov["evaluations"],
                len(self.nontrivial), sum(v["instances"] for v in self.violations), wall))
-        if ".scratch" in self.work.name and not self.violations:
-            shutil.rmtree(self.work, ignore_errors=True)       # scratch work directories of quiet runs are not kept
+        if ".scratch" in self.work.name:
+            shutil.rmtree(self.work, ignore_errors=True)       # scratch work directories are not kept (replay files are)
         return 1 if self.violations else 0
 
 
